@@ -84,4 +84,21 @@ def validPkg (o : Opts) (a : Archive) : Bool :=
   | .ok files, .ok _ => partTypes.all fun t => (filesOfType files [lit t]).all (partOK o a files)
   | _, _ => false
 
+/-- a comment entry: `w:id`, `w:author` (both required by the schema), valid content -/
+def commentOK (c : Xml) : Bool :=
+  hasId c && Except.isOk (c.attrReq (lit "w") (lit "author")) && validT c
+
+/-- there is a main part; the comments part (if any) and its relationships can be read and its entries are `commentOK` -/
+def commentsOK (a : Archive) : Bool :=
+  match a.files with
+  | .ok files =>
+    !(filesOfType files [lit "officeDocument"]).isEmpty &&
+    (match filesOfType files [lit "comments"] with
+      | [] => true
+      | cf :: _ =>
+        match a.readXml cf.path, partRels a files cf with
+        | .ok root, .ok _ => (root.kids.filter Xml.isElem).all commentOK
+        | _, _ => false)
+  | .error _ => false
+
 end D2P
